@@ -82,6 +82,33 @@ func exprs(s ast.Stmt) []ast.Node {
 	return nil
 }
 
+// hasAtomicOp: the statement itself calls a function of sync/atomic (or a CompareAndSwap method)
+func hasAtomicOp(nodes []ast.Node) bool {
+	found := false
+	for _, n := range nodes {
+		ast.Inspect(n, func(x ast.Node) bool {
+			if found {
+				return false
+			}
+			if _, ok := x.(*ast.FuncLit); ok {
+				return false
+			}
+			if c, ok := x.(*ast.CallExpr); ok {
+				if f, ok := c.Fun.(*ast.SelectorExpr); ok {
+					if id, ok := f.X.(*ast.Ident); ok && id.Name == "atomic" {
+						found = true
+					}
+					if f.Sel.Name == "CompareAndSwap" {
+						found = true
+					}
+				}
+			}
+			return !found
+		})
+	}
+	return found
+}
+
 // hasCtxPoll: the statement itself calls ctx.Err()
 func hasCtxPoll(nodes []ast.Node) bool {
 	found := false
@@ -230,6 +257,7 @@ func main() {
 	goOnly := flag.String("goonly", "", "comma-separated files that only get a scheduling point at the top of every `go func() {...}()` literal")
 	simPool := flag.String("simpool", "", "comma-separated files in which every sync.Pool becomes a vhook.SPool (served by the simulated allocator); they are processed in addition to the other lists")
 	vhookDir := flag.String("vhookdir", "", "directory of package vhook of the tree under test (gets spool_verif.go through the overlay when -simpool is used)")
+	atomicOps := flag.String("atomic", "", "comma-separated files in which every statement that calls sync/atomic gets a (thinned, row-level) scheduling point in front of it: a protocol built from atomic operations has its interleavings between them")
 	ctxPoll := flag.String("ctxpoll", "", "comma-separated files in which every statement that polls the context (ctx.Err()) gets a scheduling point in front of it: a cancellation can only be noticed at a poll, so every poll is a point at which one can arrive")
 	flag.Parse()
 	ctxPollSet := map[string]bool{}
@@ -256,8 +284,17 @@ func main() {
 			files = append(files, g)
 		}
 	}
+	atomicSet := map[string]bool{}
+	for _, g := range strings.Split(*atomicOps, ",") {
+		if g != "" {
+			atomicSet[g] = true
+		}
+	}
 	extra := map[string]bool{}
 	for g := range ctxPollSet {
+		extra[g] = true
+	}
+	for g := range atomicSet {
 		extra[g] = true
 	}
 	for g := range simPoolSet {
@@ -280,6 +317,7 @@ func main() {
 	total := 0
 	pools := 0
 	ctxPoints := 0
+	atomicPoints := 0
 	for i, path := range files {
 		src, err := os.ReadFile(path)
 		if err != nil {
@@ -340,12 +378,17 @@ func main() {
 					continue
 				}
 				ex := exprs(s)
-				if ex == nil || !hasCtxPoll(ex) {
+				if ex == nil {
 					continue
 				}
 				pos := fset.Position(s.Pos())
-				list = append(list, ins{off: pos.Offset, text: fmt.Sprintf("vhook.Yield(\"auto:ctx:%s:%d\", 0); ", base, pos.Line)})
-				ctxPoints++
+				if ctxPollSet[path] && hasCtxPoll(ex) {
+					list = append(list, ins{off: pos.Offset, text: fmt.Sprintf("vhook.Yield(\"auto:ctx:%s:%d\", 0); ", base, pos.Line)})
+					ctxPoints++
+				} else if atomicSet[path] && hasAtomicOp(ex) {
+					list = append(list, ins{off: pos.Offset, text: fmt.Sprintf("vhook.Yield(\"auto:atomic:%s:%d.row\", 0); ", base, pos.Line)})
+					atomicPoints++
+				}
 			}
 		}
 		visit := func(stmts []ast.Stmt) {
@@ -384,7 +427,7 @@ func main() {
 					}
 				}
 			}
-			if ctxPollSet[path] {
+			if ctxPollSet[path] || atomicSet[path] {
 				switch t := n.(type) {
 				case *ast.BlockStmt:
 					visitCtx(t.List)
@@ -444,7 +487,7 @@ func main() {
 	}
 	js, _ := json.MarshalIndent(map[string]interface{}{"Replace": overlay}, "", " ")
 	fmt.Println(string(js))
-	fmt.Fprintf(os.Stderr, "autoyield: %d scheduling points inserted (%d of them at context polls), %d sync.Pool made simulated, %d files\n", total-pools, ctxPoints, pools, len(overlay))
+	fmt.Fprintf(os.Stderr, "autoyield: %d scheduling points inserted (%d at context polls, %d at atomic operations), %d sync.Pool made simulated, %d files\n", total-pools, ctxPoints, atomicPoints, pools, len(overlay))
 }
 
 // exprsOnly: the statement is nothing but a vhook call (or an if around one)
